@@ -152,6 +152,11 @@ func c17GenWorld(rng *rand.Rand, w int, quick bool) *c17World {
 	if w%7 == 6 {
 		n = 3
 	}
+	// a shared backend whose agent is down and another user's private backend, live, for the same prefix
+	staleShared := w%9 == 5 && w%5 != 2 && w%5 != 4
+	if staleShared {
+		n = 2
+	}
 	words := []string{"", "prod", "eu"}
 	if w%5 == 2 {
 		// IDs related across a separator: "team", "team<sep>prod", "team<sep>prod<sep>eu"
@@ -191,6 +196,13 @@ func c17GenWorld(rng *rand.Rand, w int, quick bool) *c17World {
 		default:
 			b.Rec.PathPrefixes = []string{fmt.Sprintf("/s%d/", i), fmt.Sprintf("/s%d/deep/", (i+1)%n)}
 		}
+		if staleShared {
+			if i == 0 {
+				b.Rec.EndUser, b.Rec.PathPrefixes = "allUsers", []string{"/s0/"}
+			} else {
+				b.Rec.EndUser, b.Rec.PathPrefixes = fmt.Sprintf("user1-w%d@u.example.com", w), []string{"/s0/", "/s1/"}
+			}
+		}
 		nPending := 1 + rng.Intn(2)
 		nAnswered := rng.Intn(2)
 		extra := 0
@@ -223,7 +235,9 @@ func c17GenWorld(rng *rand.Rand, w int, quick bool) *c17World {
 	for _, b := range wd.Bs {
 		rec := b.Rec
 		wd.Setup = append(wd.Setup, c17Setup{Op: "backend", Owner: b.Rec.ID, Backend: &rec, ID: b.Rec.ID})
-		wd.Setup = append(wd.Setup, c17Setup{Op: "seen", Owner: b.Rec.ID, ID: b.Rec.ID})
+		if !(staleShared && b == wd.Bs[0]) { // (the shared backend's agent has not polled since registration)
+			wd.Setup = append(wd.Setup, c17Setup{Op: "seen", Owner: b.Rec.ID, ID: b.Rec.ID})
+		}
 		for _, rq := range b.Reqs {
 			wd.Setup = append(wd.Setup, c17Setup{Op: "request", Owner: b.Rec.ID, ID: b.Rec.ID, RID: rq.RID, User: rq.User, Contents: rq.Contents})
 			if rq.Answered {
@@ -718,6 +732,45 @@ func c17GenCases(rng *rand.Rand, wd *c17World, keepFrac float64, history bool) {
 			}
 		}
 	}
+	// an agent (no administrator) that carries its own backend ID in the agent-protocol header calls the admin API,
+	// the URL naming another backend (or its own): 403 and no effect, whatever the method
+	{
+		other := "ghost-" + w
+		if len(wd.Bs) > 1 {
+			other = wd.Bs[len(wd.Bs)-1].Rec.ID
+		}
+		type op struct{ name, method, path, body, target string }
+		for _, o := range []op{
+			{"delete-other-as-agent", "DELETE", "/api/backends/" + other, "", other},
+			{"delete-own-as-agent", "DELETE", "/api/backends/" + b0.Rec.ID, "", b0.Rec.ID},
+			{"list-as-agent", "GET", "/api/backends", "", ""},
+			{"add-as-agent", "POST", "/api/backends", string(newJSON), ""},
+			{"takeover-as-agent", "POST", "/api/backends", string(takeoverJSON), ""},
+			{"put-as-agent", "PUT", "/api/backends/" + other, string(newJSON), ""},
+		} {
+			c := &c17Case{Meta: c17Meta{Kind: "admin", Endpoint: o.name, Ident: "agent-with-own-backend-header", IsAdmin: false, Target: o.target, Email: b0.Rec.BackendUser}}
+			c.Call = e3Call{Module: "api", Method: o.method, Path: escPath(o.path), Body: o.body, OAuth: &e3OAuth{Email: b0.Rec.BackendUser},
+				Headers: map[string]string{hdrBackend: b0.Rec.ID}}
+			wd.add(c)
+			if o.method == "DELETE" && len(wd.Bs) > 1 {
+				// the backend named in the URL must still be there: its agent keeps working
+				tb := wd.Bs[len(wd.Bs)-1]
+				if o.target == b0.Rec.ID {
+					tb = b0
+				}
+				var pend *c17Req
+				for _, rq := range tb.Reqs {
+					if !rq.Answered && pend == nil {
+						pend = rq
+					}
+				}
+				f := wd.agentCall(c17Ident{"agent-after-foreign-delete-attempt", &e3OAuth{Email: tb.Rec.BackendUser}}, "request", tb.Rec.ID, "own", pend.RID, "own-pending", tb.Rec.ID)
+				f.Keep = true
+				wd.add(f)
+			}
+		}
+	}
+
 	// /cron/delete is documented as unchecked (restricted by app.yaml): executed, not judged
 	wd.add(&c17Case{Meta: c17Meta{Kind: "cron", Endpoint: "cron-delete", Ident: "nobody"}, Call: e3Call{Module: "api", Method: "GET", Path: "/cron/delete"}})
 
@@ -1478,7 +1531,7 @@ func (c *c17Case) class() string {
 
 // C17 — who may act as agent, user and admin.
 func C17(r *core.Run) {
-	r.SetRule("worlds of 1-3 registered backends (distinct/shared agent accounts, per-user/shared end users, plain and exotic IDs, IDs related across a separator (B2 = B1<sep>word for sep in : / | \" space . % \\) with request IDs crafted so that (backend, request ID) read across the separator names another backend's request, pending and answered requests with planted secrets) x caller identity {no OAuth, a token whose account has an empty e-mail address, stranger, OAuth admin that is no agent, each agent} x endpoint {pending, request, response} x named backend {each, unknown, absent} x request ID {pending/answered of each backend, unknown, absent}; admin API {list, add, takeover, garbage, delete, other methods/paths} x {App Engine admin, OAuth admin, plain user, agent, nobody, OAuth accounts with an empty / blank / \",\" e-mail address} with follow-up calls on the resulting state; end users x paths through the client handler (also: owner/other-user alternations and concurrent bursts on private prefixes; two users of different private backends in flight with client-supplied X-Inverting-Proxy-Request-ID / -Backend-ID / -User-ID headers of equal values while only one backend's agent answers - the other user must not receive that answer; bursts of concurrent agent calls for one backend by its rightful agent and by strangers while datastore reads take a few milliseconds; the response cache across users with and without a user ID in the Users API); scripted histories (agent works, the same backend ID is registered again for another agent account and end user, old and new agent on every endpoint, former and new end user through the client handler, unregister, original registration restored) and revocation while the delete transaction's commit conflicts (always / once), and random-order histories, all judged against an evolving model of who is registered; the cross-backend, unknown-ID and unauthorised agent calls repeated with one failing store read each (k-th datastore Get / memcache Get / RunQuery of that handler invocation, or the first two / first three / all datastore Gets, internal error or timeout: acceptance and foreign writes stay forbidden, 4xx/5xx are admissible); every call goes through appengine's handleHTTP and the app's routing closure; class = (kind, endpoint, identity class, named-backend class, request-ID class, history?)")
+	r.SetRule("worlds of 1-3 registered backends (some with a shared backend whose agent is down next to another user's live private backend for the same prefix; distinct/shared agent accounts, per-user/shared end users, plain and exotic IDs, IDs related across a separator (B2 = B1<sep>word for sep in : / | \" space . % \\) with request IDs crafted so that (backend, request ID) read across the separator names another backend's request, pending and answered requests with planted secrets) x caller identity {no OAuth, a token whose account has an empty e-mail address, stranger, OAuth admin that is no agent, each agent} x endpoint {pending, request, response} x named backend {each, unknown, absent} x request ID {pending/answered of each backend, unknown, absent}; admin API {list, add, takeover, garbage, delete, other methods/paths} x {App Engine admin, OAuth admin, plain user, agent, an agent carrying its own backend ID in the agent-protocol header while the URL names another backend, nobody, OAuth accounts with an empty / blank / \",\" e-mail address} with follow-up calls on the resulting state; end users x paths through the client handler (also: owner/other-user alternations and concurrent bursts on private prefixes; two users of different private backends in flight with client-supplied X-Inverting-Proxy-Request-ID / -Backend-ID / -User-ID headers of equal values while only one backend's agent answers - the other user must not receive that answer; bursts of concurrent agent calls for one backend by its rightful agent and by strangers while datastore reads take a few milliseconds; the response cache across users with and without a user ID in the Users API); scripted histories (agent works, the same backend ID is registered again for another agent account and end user, old and new agent on every endpoint, former and new end user through the client handler, unregister, original registration restored) and revocation while the delete transaction's commit conflicts (always / once), and random-order histories, all judged against an evolving model of who is registered; the cross-backend, unknown-ID and unauthorised agent calls repeated with one failing store read each (k-th datastore Get / memcache Get / RunQuery of that handler invocation, or the first two / first three / all datastore Gets, internal error or timeout: acceptance and foreign writes stay forbidden, 4xx/5xx are admissible); every call goes through appengine's handleHTTP and the app's routing closure; class = (kind, endpoint, identity class, named-backend class, request-ID class, history?)")
 	r.Assume("/cron/delete is executed but not judged (documented as restricted by app.yaml); an authorised call reading or writing keys in its own backend's namespace that merely contain a caller-supplied foreign request ID is not counted as touching the other backend; status codes for unknown/absent request IDs are only required to be 4xx; client requests are cut short once queued (incoming context cancelled) instead of waiting 30 s")
 	bin := r.MustBuild(e3Build(r))
 	rng := r.Rand("c17")
